@@ -14,6 +14,9 @@ mod zoo;
 include!("common.rs");
 
 libfuzzer_sys::fuzz_target!(|data: &[u8]| {
+    // replace libfuzzer-sys's abort-on-panic hook: panics are caught and judged by the oracles
+    static HOOK: std::sync::Once = std::sync::Once::new();
+    HOOK.call_once(engine::install_panic_hook);
     let h = match fuzzdec::decode_history(data) {
         Some(h) => h,
         None => return,
